@@ -16,7 +16,8 @@ RULE = (
     "fact and as weight. Oracle: deep snapshots (dtype, shape, bytes of every array; entries, common, shape of every "
     "index; nested lists) of every argument before == after all calls; calculate(perm(L))[i] == calculate([fresh "
     "twin of L[i]])[0] (a third of the lists contain the same object twice); a second calculate with the same objects returns the same arrays; the same objects on a "
-    "second cube built from equal data return the same arrays. index_methods: every non-mutating index method "
+    "second cube built from equal data return the same arrays; an unweighted count object is also moved to a cube "
+    "with a different number of rows and back. index_methods: every non-mutating index method "
     "(to_array, copy, filtered, sliced, slices1d, reindexed, collapsed, column_stack, common_rowids, get / items / "
     "to_dict with force, from_array with counts / mapping, cube construction, walk, product) leaves the receiver "
     "and every argument (mask, mapping, precedence list, counts dict, other indexes) byte-identical. Non-trivial "
@@ -165,6 +166,21 @@ def check(case, rec):
             again = cube_a.calculate([L[i] for i in perm])
             other = cube_for(dims_b).calculate(list(L))
             once_more = [cube_a.calculate([L[i]])[0] for i in range(len(L))]
+            # an unweighted count holds no row-aligned argument, so the same object may also serve a cube with
+            # ANOTHER number of rows: it must not remember anything about the first one
+            other_rows = []
+            counts_only = [i for i, f in enumerate(funcs) if f["agg"] == "count" and not f["weighted"]]
+            if counts_only and dense and N >= 2:
+                extra = [numpy.concatenate([a, a[: 1 + N // 2]], axis=0) for a in dense]
+                if kind == "ccube":
+                    dims_c = [Q.build_index(a, c) for a, c in zip(extra, commons)]
+                else:
+                    dims_c = [a.copy() for a in extra]
+                for i in counts_only:
+                    used = cube_for(dims_c).calculate([L[i]])[0]
+                    fresh = cube_for(dims_c).calculate([make_func(kind, funcs[i], farg, warg, NN)])[0]
+                    back = cube_a.calculate([L[i]])[0]
+                    other_rows.append((i, used, fresh, back))
     for j, i in enumerate(perm):
         if not same(together[j], alone[i]):
             raise Violation("%s: %s computed together with %s (position %d) differs from computing it alone"
@@ -180,6 +196,13 @@ def check(case, rec):
         if not same(once_more[i], alone[i]):
             raise Violation("%s: %s re-used alone after a joint run gives a different result"
                             % (what, funcs[i]["agg"]), sig="%s reuse alone differs (%s)" % (kind, funcs[i]["agg"]))
+    for i, used, fresh, back in other_rows:
+        if not same(used, fresh):
+            raise Violation("%s: a count object used on one cube and then on a cube with a different number of rows "
+                            "differs from a fresh object there" % what, sig="%s count object remembers its first cube" % kind)
+        if not same(back, alone[i]):
+            raise Violation("%s: a count object used on a larger cube and then again on the first one gives a "
+                            "different result" % what, sig="%s count object remembers another cube" % kind)
     after = {k: snapshot(v) for k, v in args.items()}
     for k in args:
         if before[k] != after[k]:
